@@ -32,7 +32,7 @@ def Symbol.show (s : Symbol) : String :=
   s!"sym({s.st_name},{s.st_shndx},{s.st_info},{s.st_other},{s.st_value},{s.st_size})"
 def Rel.show (r : Rel) : String := s!"rel({r.r_offset},{r.r_sym},{r.r_type})"
 def Rela.show (r : Rela) : String := s!"rela({r.r_offset},{r.r_sym},{r.r_type},{r.r_addend})"
-def Dyn.show (d : Dyn) : String := s!"dyn({d.d_tag},{d.d_un})"
+def Dyn.show (d : Dyn) : String := s!"dyn({d.d_tag},{d.dVal})"
 def CompressionHeader.show (c : CompressionHeader) : String :=
   s!"chdr({c.ch_type},{c.ch_size},{c.ch_addralign})"
 def NoteHeader.show (n : NoteHeader) : String := s!"nhdr({n.n_namesz},{n.n_descsz},{n.n_type})"
